@@ -964,6 +964,18 @@ func TestReplayC16(t *testing.T) {
 				} else if !reflect.DeepEqual(got, want) {
 					fail("PageHeaders reports %d headers, an independent walk finds %d pages, or their contents differ", len(got), len(want))
 				}
+				// the footer handed to a listing still is what the file holds, and a
+				// second listing from it reports the same pages
+				if fresh, err := parquet.ReadMetaData(bytes.NewReader(file)); err != nil {
+					fail("ReadMetaData (second decode): %v", err)
+				} else if !reflect.DeepEqual(fresh, footer) {
+					fail("footer changed by PageHeaders: it no longer equals a fresh decode of the same file")
+				}
+				if again, err := parquet.PageHeaders(footer, bytes.NewReader(file)); err != nil {
+					fail("PageHeaders (second listing from the same footer): %v", err)
+				} else if !reflect.DeepEqual(again, want) {
+					fail("second PageHeaders listing from the same footer reports %d headers, an independent walk finds %d pages, or their contents differ", len(again), len(want))
+				}
 			}
 		}
 	}
